@@ -55,6 +55,24 @@ def digestRange (w : Bytes) : Option (Nat × Nat) :=
     | none => none
   | none => none
 
+/-- `got` of the form "x!y": ReadPacket's verdict y differs from ReadData/ReadInterest's x -/
+def specAgree (mk : Mk) (what : String) (got : String) : List SpecFail :=
+  if (got.splitOn "!").length > 1 then
+    [⟨"readers-agree", String.singleton mk.kind ++ "-" ++ sigBase mk.signer,
+      s!"{what}: ReadPacket and Read{if mk.kind == 'D' then "Data" else "Interest"} disagree (verdicts {tk got 12})"⟩]
+  else []
+
+/-- the packet without its first top-level element of type `typ` (outer length re-encoded) -/
+def withoutElement (w : Bytes) (typ : Nat) : Option Bytes :=
+  match Spec.elements w with
+  | some (o, ts) =>
+    match Spec.findT ts typ with
+    | some t =>
+      let nv := (w.drop o.hdr).take (t.off - o.hdr) ++ w.drop (t.off + t.hdr + t.val.length)
+      some (encTL o.typ ++ encTL nv.length ++ nv)
+    | none => none
+  | none => none
+
 def specFlip (mk : Mk) (bit : Nat) (v : Char) (cuts : String := "c") : List SpecFail :=
   let inClaim := Spec.inRanges (claimed mk.w) (bit / 8)
   let region := if Spec.inRanges (Spec.signedRanges mk.w) (bit / 8) then "signed"
@@ -89,6 +107,24 @@ def stepC12 (st : St) (op : String) (got : String) : StepResult St :=
     { st := { st with last := r.built, mkExpected := some r.expected }, expected := none, cov := r.cov,
       spec := r.spec.filter (fun s => s.clause == "builds" || s.clause == "no-panic"),
       nontrivial := (r.built.map (fun m => m.signed || m.hasParams)).getD false }
+  | "delap" :: rest =>
+    let cuts := rest.headD "c"
+    match st.last with
+    | none => { st := st, expected := some "skip" }
+    | some mk =>
+      if mk.kind != 'I' then { st := st, expected := some "skip" } else
+      match withoutElement mk.w 36 with
+      | none => { st := st, expected := some "skip" }
+      | some w =>
+        match readerOf w cuts mk.segLens with
+        | none => { st := st, expected := some "bad-op" }
+        | some r =>
+          let (v, _) := modelVerdict mk r
+          { st := st, expected := some (String.singleton v), cov := ["delap"],
+            spec := specAgree mk s!"ApplicationParameters removed, reader {cuts}" got ++
+              (if !got.startsWith "e" ∧ !got.startsWith "p" ∧ !isCrash got then
+                [⟨"params-removed", "I-" ++ sigBase mk.signer,
+                  s!"the Interest with its ApplicationParameters element removed still decodes (reader {cuts}, verdict {tk got 8})"⟩] else []) }
   | "fmk" :: _ =>
     -- a make op under a failing entropy source: its own outcome is not part of the property (signers
     -- that need randomness report an error, the others succeed); it only must not disturb the signer
@@ -150,6 +186,7 @@ def stepC12 (st : St) (op : String) (got : String) : StepResult St :=
         let hasVal := (validatorType mk.signer).isSome ∧ mk.signed
         let spec : List SpecFail :=
           (if isCrash got then [⟨"no-panic", "val", tk got 160⟩] else []) ++
+          specAgree mk s!"untampered packet, reader {cuts}" got ++
           (if got == "e" then
             [⟨"decodes", String.singleton mk.kind ++ "-" ++ sigBase mk.signer,
               s!"a packet built through the API does not decode (reader {cuts})"⟩] else []) ++
@@ -176,7 +213,8 @@ def stepC12 (st : St) (op : String) (got : String) : StepResult St :=
       | some r =>
         let (v, _) := modelVerdict mk r
         let gv := got.toList.headD '?'
-        { st := st, expected := if v == '?' then none else some (String.singleton v), spec := specFlip mk bit gv cuts,
+        { st := st, expected := if v == '?' then none else some (String.singleton v),
+          spec := specFlip mk bit gv cuts ++ specAgree mk s!"bit {bit} flipped, reader {cuts}" got,
           cov := ["flip-" ++ String.singleton v] }
     | none, _ => { st := st, expected := some "skip" }
     | _, none => { st := st, expected := some "bad-op" }
@@ -185,7 +223,9 @@ def stepC12 (st : St) (op : String) (got : String) : StepResult St :=
     match st.last with
     | none => { st := st, expected := some "skip" }
     | some mk =>
-      let gl := match got.splitOn " " with | [_, s] => s.toList | _ => []
+      let gparts := got.splitOn " "
+      let gl := (gparts.getD 1 "").toList
+      let pk := (kv gparts "pk").getD "-"
       let n := 8 * mk.w.length
       let model : List Char := (List.range n).map fun bit =>
         match readerOf (flipBit mk.w bit) cuts mk.segLens with
@@ -199,8 +239,11 @@ def stepC12 (st : St) (op : String) (got : String) : StepResult St :=
         (if (Spec.paramsRange mk.w).isSome then ["flip-params-region"] else []) ++
         (if (digestRange mk.w).isSome then ["flip-digest-region"] else []) ++
         (match Spec.paramsRange mk.w with | some (lo, hi) => if hi - lo ≤ 2 then ["flip-params-empty"] else [] | none => [])
-      { st := st, expected := some s!"{mk.w.length} {String.ofList merged}",
-        spec := if isCrash got then [⟨"no-panic", "flipall", tk got 160⟩] else spec.take 4,
+      let agree : List SpecFail := if pk != "-" ∧ !isCrash got then
+          [⟨"readers-agree", String.singleton mk.kind ++ "-" ++ sigBase mk.signer,
+            s!"reader {cuts}: ReadPacket's verdict differs from Read{if mk.kind == 'D' then "Data" else "Interest"}'s for the packet with these bits flipped (bit:ReadPacket verdict): {tk pk 120}"⟩] else []
+      { st := st, expected := some s!"{mk.w.length} {String.ofList merged} pk=-",
+        spec := if isCrash got then [⟨"no-panic", "flipall", tk got 160⟩] else agree ++ spec.take 4,
         cov := (if cuts == "c" then "flipall" else if cuts == "own" then "flipall-own" else "flipall-cuts") :: tags ++ regions }
   | _ => { st := st, expected := some "bad-op" }
 
